@@ -27,6 +27,20 @@ class SpecLayer:
             t = open(p).read()
             for m in re.finditer(r'^def (\w+) : SpecD := \{.*?\]\}\n', t, re.M | re.S):
                 defs += m.group(0) + '\n'; names.append(m.group(1))
+        # the capacity of the match object in this tree (MAX_MATCH_POS of device_private.h, as the translator read it): a shipped
+        # script that reads a higher $N gets nothing from xregex_match_sub_strdup - the statement silently does nothing
+        try:
+            cap = int(re.search(r'def MAX_MATCH_POS : Nat := (\d+)', open(os.path.join(translate.GEN, 'Tables.lean')).read()).group(1))
+        except Exception: cap = None
+        if cap is not None:
+            for m in re.finditer(r'^def (\w+) : SpecD := \{(.*?)\]\}\n', defs, re.M | re.S):
+                fn = re.search(r'file := "([^"]*)"', m.group(2))
+                for st_, a, b in re.findall(r'\.(setplugstate (?:true|false)|setresult) \((-?\d+)\) \((-?\d+)\)', m.group(2)):
+                    hi = max(int(a), int(b))
+                    if hi > cap:
+                        V.append(dict(sig='C17 a shipped specification reads a capture group the match object cannot hold', specification=m.group(1), file=fn.group(1) if fn else '?',
+                                      detail='$%d is read, the match object holds groups 0..%d (MAX_MATCH_POS)' % (hi, cap), replay=dict(layer=self.name, what='%s: $%d > MAX_MATCH_POS = %d' % (m.group(1), hi, cap))))
+                        break
         os.makedirs(os.path.join(BUILD, 'audit'), exist_ok=True)
         f = os.path.join(BUILD, 'audit', 'SpecEval_%d.lean' % os.getpid())
         with open(f, 'w') as fh:
